@@ -159,6 +159,16 @@ func VerifC09Contains() {
 		nd.Assert(!c09Bool("m contains p", map[string]any{"m": map[string]any{"A": 1, "k": 2}, "p": nd.IntIn(60, 70)}), "map-contains-no-converted-key")
 		nd.Assert(!c09Bool("m contains p", map[string]any{"m": map[int]any{1: "x"}, "p": 1.5}), "int-map-contains-no-truncated-float")
 		nd.Assert(c09Bool("m contains p", map[string]any{"m": map[int]any{1: "x"}, "p": 1}), "int-map-contains-int-key")
+		// a key is contained whatever Go type spells it: another integer width, a whole float, a key
+		// held in a map with an interface key type (what yaml makes)
+		wide := []any{int64(1), int8(1), uint16(1), 1.0}[nd.Choice(4)]
+		nd.Assert(c09Bool("m contains p", map[string]any{"m": map[int]any{1: "x"}, "p": wide}), "int-map-contains-key-of-other-width")
+		nd.Assert(!c09Bool("m contains p", map[string]any{"m": map[uint8]any{44: "x"}, "p": 300}), "uint8-map-contains-no-wrapped-key")
+		gotAny := c09Bool("m contains p", map[string]any{"m": map[any]any{"k": 1, "j": nil, 3: "x"}, "p": k})
+		nd.Assert(gotAny == (k == "k" || k == "j"), "contains-interface-map-key")
+		// and indexing agrees with contains: what is not a key reads nil
+		v15, e15 := c09Eval("m[p]", map[string]any{"m": map[int]any{1: "x"}, "p": 1.5})
+		nd.Assert(e15 && v15 == nil, "int-map-index-no-truncated-float")
 	case 3: // other receivers never contain anything and never fail
 		v := c09Operand(nd.Choice(c09OpKinds))
 		_, _ = c09Eval("x contains v", map[string]any{"x": nil, "v": v})
